@@ -173,6 +173,13 @@ func replayBind(args []string) (any, error) {
 			}
 			if v.Accepted {
 				sum.Distinct++
+				// checking a loaded script again (Script.Check is the host's API) accepts it again and changes nothing about the binding
+				if sum.Evaluations%2 == 0 {
+					if e := sc.Check(); e != nil {
+						sum.miss(sig+":recheck", map[string]any{"params": v.Params, "call": text, "second_check": e.Error()})
+						return nil
+					}
+				}
 				rerr := sc.Run(nil)
 				want := []any{}
 				for i, b := range v.Binding {
